@@ -464,6 +464,25 @@ def register(kernel):
            thm_params=[("r", "nat")], gen_args="2%Z (Z.of_nat r)", model="Z.of_nat (r * 2)",
            model_name="KronIndex.sweep (r' = r * 2)", tactic="intros r; cbv [GEN]; lia", **km)
 
+    # ------------------------------------------------------------------ C09: SWAP.apply on one pair of replicas
+    # pairwise reading (PairTr): the batch row s1 and its partner s2 = torch.roll(batch, 1, 0)[same index]; the region A is a mask
+    st_t = "(@QModel.Observables.istate R)"
+    sw = dict(pairwise_swap=True, vec=True, file="qucumber/observables/entanglement.py", imports=["Bits", "CBase", "Observables"])
+    kernel("C09", name="swap_helper", func="swap", inputs=[("s1", "s1", "BV"), ("s2", "s2", "BV"), ("A", "A", "MASK")],
+           coq_params=[("s1", "bits"), ("s2", "bits"), ("A", "list bool")], result=("BV", "BV"),
+           thm_params=[("s1", "bits"), ("s2", "bits"), ("A", "list bool")], gen_args="s1 s2 A",
+           model="swap_mask A s1 s2", model_name="Observables.swap_mask (sites in the region exchanged, the others kept)",
+           tactic="intros; cbv [GEN]; rewrite swap_mask_bmerge; reflexivity", **sw)
+    kernel("C09", name="swap_apply_pair", func="SWAP.apply", inputs=[("samples", "s1", "BV")], unused_params=["nn_state"],
+           hole_types={"a": "BV", "b": "BV", "x": "C", "y": "C", "s": "BV"},
+           atoms=[("torch.roll($s, 1, 0)", "s2", "BV"), ("self.A", "A", "MASK"),
+                  ("nn_state.importance_sampling_weight($a, $b)", "(is_weight ROps st $a $b)", "C"),
+                  ("cplx.elementwise_mult($x, $y)", "(cmul ROps $x $y)", "C")],
+           coq_params=[("st", st_t), ("A", "list bool"), ("s1", "bits"), ("s2", "bits")], result=F,
+           thm_params=[("st", st_t), ("A", "list bool"), ("s1", "bits"), ("s2", "bits")], gen_args="st A s1 s2",
+           model="swap_value ROps st A s1 s2", model_name="Observables.swap_value (real part of weight(s1', s1) * weight(s2', s2) for the exchanged pair)",
+           tactic="intros; cbv [GEN swap_value]; rewrite swap_mask_bmerge; reflexivity", **sw)
+
 def register_corollaries(cor):
     """property-level facts stated over SEVERAL generated kernels at once (compiled with the combined generated file)"""
     # C05: the Markov kernel assembled from the TRANSLATED conditionals satisfies detailed balance with respect to the weight
